@@ -6,35 +6,34 @@ import (
 	"go/types"
 )
 
-// The accesses a statement makes, by its own evaluation (nested statements report their own), to
-// shared-capable locations: fields reached from a pointer variable whose element type is a struct type
-// of the generated package, and the package's own package-level variables. Reported to the
-// in-simulator race detector as verifhook.R / verifhook.W calls placed in front of the statement,
-// which pass the pointer but never dereference it.
+// The memory accesses a statement makes, by its own evaluation (nested statements and function literals report
+// their own), to locations that more than one task can reach: whatever lies behind a package-level variable of
+// the generated package, behind a pointer to one of its struct types, or behind a variable captured by a
+// closure - followed through further fields, pointers, slice/array elements and map elements. They are reported
+// to the in-simulator race detector as verifhook.RA / WA (address of an addressable operand) and RM / WM (a map
+// and its elements) calls placed in front of the statement. The operand is evaluated inside a closure under
+// recover, so a nil pointer or an index out of range on the way to it is harmless (the statement itself will
+// run into it next). Only pure operands are reported (identifiers, selectors, dereferences, indexing by pure
+// operands or literals): evaluating them early has no effect and gives the address the statement will use.
+// Operands on the right of && and || are not reported (they may not be evaluated).
 
 type rtAcc struct {
-	root  string // identifier of the pointer variable, or "nil" for package-level variables
-	loc   string
+	expr  string // source text of the operand (addressable), or of the map
+	label string
 	write bool
-}
-
-type rtLoc struct {
-	root    string
-	loc     string
-	typ     types.Type
-	rootPtr bool // the pointer variable itself, nothing dereferenced yet
-	none    bool // a lock, pool or atomic: its methods are the synchronisation, not an access
+	isMap bool
 }
 
 type accCollector struct {
 	y     *rtWalker
 	stPos token.Pos
+	encl  *ast.FuncLit // innermost function literal around the statement (nil: a declared function)
 	out   []rtAcc
 	seen  map[rtAcc]bool
 }
 
-func (y *rtWalker) stmtAccesses(st ast.Stmt) []rtAcc {
-	c := &accCollector{y: y, stPos: st.Pos(), seen: map[rtAcc]bool{}}
+func (y *rtWalker) stmtAccesses(st ast.Stmt, encl *ast.FuncLit) []rtAcc {
+	c := &accCollector{y: y, stPos: st.Pos(), encl: encl, seen: map[rtAcc]bool{}}
 	c.stmt(st)
 	if len(c.out) > 16 {
 		c.out = c.out[:16]
@@ -42,11 +41,9 @@ func (y *rtWalker) stmtAccesses(st ast.Stmt) []rtAcc {
 	return c.out
 }
 
-func (c *accCollector) add(l rtLoc, suffix string, write bool) {
-	if l.none || (l.rootPtr && suffix == "" && !write) {
-		return
-	}
-	a := rtAcc{root: l.root, loc: l.loc + suffix, write: write}
+func (c *accCollector) info() *types.Info { return c.y.w.pkg.TypesInfo }
+
+func (c *accCollector) add(a rtAcc) {
 	if !c.seen[a] {
 		c.seen[a] = true
 		c.out = append(c.out, a)
@@ -56,38 +53,38 @@ func (c *accCollector) add(l rtLoc, suffix string, write bool) {
 func (c *accCollector) stmt(st ast.Stmt) {
 	switch x := st.(type) {
 	case *ast.ExprStmt:
-		c.read(x.X)
+		c.load(x.X)
 	case *ast.AssignStmt:
 		for _, r := range x.Rhs {
-			c.read(r)
+			c.load(r)
 		}
 		for _, l := range x.Lhs {
 			if x.Tok == token.DEFINE {
-				if id, ok := l.(*ast.Ident); ok && c.y.w.pkg.TypesInfo.Defs[id] != nil {
+				if id, ok := l.(*ast.Ident); ok && c.info().Defs[id] != nil {
 					continue
 				}
 			}
-			c.write(l, x.Tok != token.ASSIGN && x.Tok != token.DEFINE)
+			c.store(l, x.Tok != token.ASSIGN && x.Tok != token.DEFINE)
 		}
 	case *ast.IncDecStmt:
-		c.write(x.X, true)
+		c.store(x.X, true)
 	case *ast.IfStmt:
 		if x.Init != nil {
 			c.stmt(x.Init)
 		}
-		c.read(x.Cond)
+		c.load(x.Cond)
 	case *ast.ForStmt:
 		if x.Init != nil {
 			c.stmt(x.Init)
 		}
-		c.read(x.Cond)
+		c.load(x.Cond)
 	case *ast.RangeStmt:
-		c.readRanged(x.X)
+		c.loadAll(x.X)
 	case *ast.SwitchStmt:
 		if x.Init != nil {
 			c.stmt(x.Init)
 		}
-		c.read(x.Tag)
+		c.load(x.Tag)
 	case *ast.TypeSwitchStmt:
 		if x.Init != nil {
 			c.stmt(x.Init)
@@ -95,15 +92,15 @@ func (c *accCollector) stmt(st ast.Stmt) {
 		c.stmt(x.Assign)
 	case *ast.ReturnStmt:
 		for _, r := range x.Results {
-			c.read(r)
+			c.load(r)
 		}
 	case *ast.DeferStmt:
-		c.read(x.Call)
+		c.load(x.Call)
 	case *ast.GoStmt:
-		c.read(x.Call)
+		c.load(x.Call)
 	case *ast.SendStmt:
-		c.read(x.Chan)
-		c.read(x.Value)
+		c.load(x.Chan)
+		c.load(x.Value)
 	case *ast.LabeledStmt:
 		c.stmt(x.Stmt)
 	case *ast.DeclStmt:
@@ -111,7 +108,7 @@ func (c *accCollector) stmt(st ast.Stmt) {
 			for _, sp := range gd.Specs {
 				if vs, ok := sp.(*ast.ValueSpec); ok {
 					for _, v := range vs.Values {
-						c.read(v)
+						c.load(v)
 					}
 				}
 			}
@@ -119,19 +116,21 @@ func (c *accCollector) stmt(st ast.Stmt) {
 	}
 }
 
-func (c *accCollector) ownStruct(t types.Type) (*types.Named, *types.Struct) {
+func (c *accCollector) ownStruct(t types.Type) *types.Named {
 	n, ok := t.(*types.Named)
 	if !ok || n.Obj().Pkg() != c.y.w.pkg.Types {
-		return nil, nil
+		return nil
 	}
-	st, ok := n.Underlying().(*types.Struct)
-	if !ok {
-		return nil, nil
+	if _, ok := n.Underlying().(*types.Struct); !ok {
+		return nil
 	}
-	return n, st
+	return n
 }
 
 func isSyncType(t types.Type) bool {
+	if t == nil {
+		return false
+	}
 	if p, ok := t.(*types.Pointer); ok {
 		t = p.Elem()
 	}
@@ -143,73 +142,6 @@ func isSyncType(t types.Type) bool {
 	return pp == "sync" || pp == "sync/atomic"
 }
 
-// resolve maps a pure selector chain onto a location.
-func (c *accCollector) resolve(e ast.Expr) (rtLoc, bool) {
-	info := c.y.w.pkg.TypesInfo
-	switch x := e.(type) {
-	case *ast.ParenExpr:
-		return c.resolve(x.X)
-	case *ast.Ident:
-		if x.Name == "_" {
-			return rtLoc{}, false
-		}
-		v, ok := info.Uses[x].(*types.Var)
-		if !ok || v.IsField() || v.Pkg() != c.y.w.pkg.Types {
-			return rtLoc{}, false
-		}
-		if v.Parent() == c.y.w.pkg.Types.Scope() {
-			if isSyncType(v.Type()) {
-				return rtLoc{none: true}, true
-			}
-			return rtLoc{root: "nil", loc: "var:" + v.Name(), typ: v.Type()}, true
-		}
-		p, ok := v.Type().(*types.Pointer)
-		if !ok || v.Pos() >= c.stPos {
-			return rtLoc{}, false
-		}
-		n, _ := c.ownStruct(p.Elem())
-		if n == nil {
-			return rtLoc{}, false
-		}
-		return rtLoc{root: x.Name, loc: n.Obj().Name(), typ: v.Type(), rootPtr: true}, true
-	case *ast.SelectorExpr:
-		sel := info.Selections[x]
-		if sel == nil || sel.Kind() != types.FieldVal {
-			return rtLoc{}, false
-		}
-		b, ok := c.resolve(x.X)
-		if !ok {
-			return rtLoc{}, false
-		}
-		if b.none {
-			return b, true
-		}
-		t := b.typ
-		first := true
-		for _, ix := range sel.Index() {
-			if p, ok := t.(*types.Pointer); ok {
-				if !(first && b.rootPtr) {
-					return rtLoc{}, false // another object: not followed
-				}
-				t = p.Elem()
-			}
-			first = false
-			st, ok := t.Underlying().(*types.Struct)
-			if !ok || ix >= st.NumFields() {
-				return rtLoc{}, false
-			}
-			f := st.Field(ix)
-			b.loc += "." + f.Name()
-			t = f.Type()
-		}
-		if isSyncType(t) {
-			return rtLoc{none: true}, true
-		}
-		return rtLoc{root: b.root, loc: b.loc, typ: t}, true
-	}
-	return rtLoc{}, false
-}
-
 func isMapType(t types.Type) bool {
 	if t == nil {
 		return false
@@ -218,205 +150,369 @@ func isMapType(t types.Type) bool {
 	return ok
 }
 
-func (c *accCollector) readRanged(e ast.Expr) {
-	if l, ok := c.resolve(e); ok && !l.rootPtr {
-		if isMapType(l.typ) {
-			c.add(l, "[]", false)
-		} else {
-			c.add(l, "", false)
-		}
-		return
-	}
-	c.read(e)
+// operand describes a pure operand.
+type operand struct {
+	pure    bool
+	shared  bool   // some hop on the way can be reached by more than one task
+	label   string // stable, type based name of the location
+	sync    bool   // a lock, pool or atomic (or something inside one): its methods are the synchronisation
+	typ     types.Type
 }
 
-func (c *accCollector) read(e ast.Expr) {
-	info := c.y.w.pkg.TypesInfo
+// classify walks a pure operand chain.
+func (c *accCollector) classify(e ast.Expr) operand {
+	info := c.info()
+	switch x := e.(type) {
+	case *ast.ParenExpr:
+		return c.classify(x.X)
+	case *ast.BasicLit:
+		return operand{pure: true}
+	case *ast.Ident:
+		if x.Name == "_" {
+			return operand{}
+		}
+		switch o := info.Uses[x].(type) {
+		case *types.Const, *types.Nil:
+			return operand{pure: true}
+		case *types.Var:
+			if o.IsField() {
+				return operand{}
+			}
+			op := operand{pure: true, typ: o.Type(), label: o.Name(), sync: isSyncType(o.Type())}
+			switch {
+			case o.Pkg() == c.y.w.pkg.Types && o.Parent() == c.y.w.pkg.Types.Scope():
+				op.shared, op.label = true, "var:"+o.Name()
+			case o.Parent() == nil || o.Pkg() != c.y.w.pkg.Types:
+				return operand{} // variable of another package
+			case o.Pos() >= c.stPos:
+				return operand{} // declared by the statement itself: not in scope in front of it
+			case c.encl != nil && o.Pos() < c.encl.Pos():
+				op.shared, op.label = true, "captured:"+o.Name()
+			}
+			return op
+		}
+		return operand{}
+	case *ast.SelectorExpr:
+		sel := info.Selections[x]
+		if sel == nil || sel.Kind() != types.FieldVal {
+			return operand{}
+		}
+		b := c.classify(x.X)
+		if !b.pure {
+			return operand{}
+		}
+		t := b.typ
+		for _, ix := range sel.Index() {
+			if p, ok := t.Underlying().(*types.Pointer); ok {
+				if n := c.ownStruct(p.Elem()); n != nil {
+					b.shared = true
+				}
+				t = p.Elem()
+			}
+			st, ok := t.Underlying().(*types.Struct)
+			if !ok || ix >= st.NumFields() {
+				return operand{}
+			}
+			if n, ok := t.(*types.Named); ok {
+				b.label = n.Obj().Name()
+			}
+			f := st.Field(ix)
+			b.label += "." + f.Name()
+			t = f.Type()
+			if isSyncType(t) {
+				b.sync = true
+			}
+		}
+		b.typ = t
+		return b
+	case *ast.StarExpr:
+		b := c.classify(x.X)
+		if !b.pure {
+			return operand{}
+		}
+		p, ok := b.typ.Underlying().(*types.Pointer)
+		if !ok {
+			return operand{}
+		}
+		if n := c.ownStruct(p.Elem()); n != nil {
+			b.shared, b.label = true, n.Obj().Name()
+		} else {
+			b.label = "*" + b.label
+		}
+		b.typ = p.Elem()
+		return b
+	case *ast.IndexExpr:
+		b := c.classify(x.X)
+		if !b.pure || b.typ == nil {
+			return operand{}
+		}
+		if i := c.classify(x.Index); !i.pure {
+			return operand{}
+		}
+		switch u := b.typ.Underlying().(type) {
+		case *types.Slice:
+			b.typ, b.label = u.Elem(), b.label+"[i]"
+		case *types.Array:
+			b.typ, b.label = u.Elem(), b.label+"[i]"
+		case *types.Pointer:
+			if a, ok := u.Elem().Underlying().(*types.Array); ok {
+				b.typ, b.label = a.Elem(), b.label+"[i]"
+			} else {
+				return operand{}
+			}
+		case *types.Map:
+			b.typ, b.label = u.Elem(), b.label+"[]"
+		default:
+			return operand{}
+		}
+		return b
+	}
+	return operand{}
+}
+
+func (c *accCollector) addressable(e ast.Expr) bool {
+	tv, ok := c.info().Types[e]
+	return ok && tv.Addressable()
+}
+
+func (c *accCollector) text(e ast.Expr) string { return c.y.w.text(e) }
+
+// derefs reports the loads an operand chain performs on its way: every pointer, slice or map that is followed.
+func (c *accCollector) derefs(e ast.Expr) {
+	switch x := e.(type) {
+	case *ast.ParenExpr:
+		c.derefs(x.X)
+	case *ast.SelectorExpr:
+		if sel := c.info().Selections[x]; sel != nil && sel.Kind() == types.FieldVal {
+			if _, isPtr := c.info().TypeOf(x.X).Underlying().(*types.Pointer); isPtr {
+				c.access(x.X, false)
+			}
+			c.derefs(x.X)
+		}
+	case *ast.StarExpr:
+		c.access(x.X, false)
+		c.derefs(x.X)
+	case *ast.IndexExpr:
+		switch c.info().TypeOf(x.X).Underlying().(type) {
+		case *types.Slice, *types.Pointer, *types.Map:
+			c.access(x.X, false)
+		}
+		c.derefs(x.X)
+		c.load(x.Index)
+	}
+}
+
+// access reports one read or write of the operand e itself (not of what it is reached through).
+func (c *accCollector) access(e ast.Expr, write bool) bool {
+	for {
+		p, ok := e.(*ast.ParenExpr)
+		if !ok {
+			break
+		}
+		e = p.X
+	}
+	op := c.classify(e)
+	if !op.pure || !op.shared || op.sync {
+		return op.pure
+	}
+	if ix, ok := e.(*ast.IndexExpr); ok {
+		if isMapType(c.info().TypeOf(ix.X)) {
+			c.add(rtAcc{expr: c.text(ix.X), label: op.label, write: write, isMap: true})
+			return true
+		}
+	}
+	if !c.addressable(e) {
+		return true
+	}
+	c.add(rtAcc{expr: c.text(e), label: op.label, write: write})
+	return true
+}
+
+// loadAll: the operand and, for a map, its elements (range, len).
+func (c *accCollector) loadAll(e ast.Expr) {
+	c.load(e)
+	if isMapType(c.info().TypeOf(e)) {
+		if op := c.classify(e); op.pure && op.shared && !op.sync {
+			c.add(rtAcc{expr: c.text(e), label: op.label + "[]", isMap: true})
+		}
+	}
+}
+
+func (c *accCollector) load(e ast.Expr) {
+	info := c.info()
 	switch x := e.(type) {
 	case nil:
 	case *ast.FuncLit:
 	case *ast.ParenExpr:
-		c.read(x.X)
-	case *ast.Ident:
-		if l, ok := c.resolve(x); ok {
-			c.add(l, "", false)
-		}
-	case *ast.SelectorExpr:
-		if l, ok := c.resolve(x); ok {
-			c.add(l, "", false)
+		c.load(x.X)
+	case *ast.Ident, *ast.SelectorExpr, *ast.StarExpr, *ast.IndexExpr:
+		if op := c.classify(x); op.pure {
+			if op.sync {
+				return
+			}
+			c.access(x, false)
+			c.derefs(x)
 			return
 		}
-		if info.Selections[x] != nil {
-			c.read(x.X)
-		}
-	case *ast.IndexExpr:
-		if l, ok := c.resolve(x.X); ok && !l.rootPtr {
-			if isMapType(l.typ) {
-				c.add(l, "[]", false)
-			} else {
-				c.add(l, "", false)
+		switch y := x.(type) {
+		case *ast.SelectorExpr:
+			if info.Selections[y] != nil {
+				c.load(y.X)
 			}
-		} else {
-			c.read(x.X)
+		case *ast.StarExpr:
+			c.load(y.X)
+		case *ast.IndexExpr:
+			c.load(y.X)
+			c.load(y.Index)
 		}
-		c.read(x.Index)
 	case *ast.IndexListExpr:
-		c.read(x.X)
+		c.load(x.X)
 	case *ast.SliceExpr:
-		c.read(x.X)
-		c.read(x.Low)
-		c.read(x.High)
-		c.read(x.Max)
-	case *ast.StarExpr:
-		c.read(x.X)
+		c.load(x.X)
+		c.load(x.Low)
+		c.load(x.High)
+		c.load(x.Max)
 	case *ast.TypeAssertExpr:
-		c.read(x.X)
+		c.load(x.X)
 	case *ast.BinaryExpr:
-		c.read(x.X)
-		c.read(x.Y)
+		c.load(x.X)
+		if x.Op != token.LAND && x.Op != token.LOR {
+			c.load(x.Y)
+		}
 	case *ast.KeyValueExpr:
 		if _, isIdent := x.Key.(*ast.Ident); !isIdent {
-			c.read(x.Key)
+			c.load(x.Key)
 		}
-		c.read(x.Value)
+		c.load(x.Value)
 	case *ast.CompositeLit:
 		for _, el := range x.Elts {
-			c.read(el)
+			c.load(el)
 		}
 	case *ast.UnaryExpr:
 		if x.Op == token.AND {
 			c.addr(x.X)
 			return
 		}
-		c.read(x.X)
+		c.load(x.X)
 	case *ast.CallExpr:
 		c.call(x)
 	}
 }
 
-// addr: taking an address is not an access to the addressed location.
+// addr: taking an address is not an access to the addressed location, only to what it is reached through.
 func (c *accCollector) addr(e ast.Expr) {
 	switch x := e.(type) {
 	case *ast.ParenExpr:
 		c.addr(x.X)
-	case *ast.SelectorExpr:
-		if _, ok := c.resolve(x); ok {
-			return
-		}
-		if c.y.w.pkg.TypesInfo.Selections[x] != nil {
-			c.read(x.X)
-		}
-	case *ast.IndexExpr:
-		c.read(x.X)
-		c.read(x.Index)
 	case *ast.CompositeLit:
-		c.read(x)
+		c.load(x)
+	default:
+		if op := c.classify(e); op.pure {
+			c.derefs(e)
+		}
 	}
 }
 
 func (c *accCollector) call(x *ast.CallExpr) {
-	info := c.y.w.pkg.TypesInfo
+	info := c.info()
 	if tv, ok := info.Types[x.Fun]; ok && tv.IsType() { // conversion
 		for _, a := range x.Args {
-			c.read(a)
+			c.load(a)
 		}
 		return
 	}
 	if id, ok := x.Fun.(*ast.Ident); ok {
 		if _, isBuiltin := info.Uses[id].(*types.Builtin); isBuiltin {
 			switch id.Name {
-			case "delete":
-				if len(x.Args) == 2 {
-					if l, ok := c.resolve(x.Args[0]); ok && !l.rootPtr && isMapType(l.typ) {
-						c.add(l, "[]", true)
-					} else {
-						c.read(x.Args[0])
+			case "delete", "clear":
+				if len(x.Args) >= 1 && isMapType(info.TypeOf(x.Args[0])) {
+					if op := c.classify(x.Args[0]); op.pure && op.shared && !op.sync {
+						c.add(rtAcc{expr: c.text(x.Args[0]), label: op.label + "[]", write: true, isMap: true})
 					}
-					c.read(x.Args[1])
+				}
+				for _, a := range x.Args {
+					c.load(a)
 				}
 				return
 			case "len", "cap":
 				if len(x.Args) == 1 {
-					c.readRanged(x.Args[0])
+					c.loadAll(x.Args[0])
 				}
 				return
-			case "clear":
-				if len(x.Args) == 1 {
-					if l, ok := c.resolve(x.Args[0]); ok && !l.rootPtr && isMapType(l.typ) {
-						c.add(l, "[]", true)
-						return
-					}
-				}
 			}
 			for _, a := range x.Args {
-				c.read(a)
+				c.load(a)
 			}
 			return
 		}
 	}
 	if sel, ok := x.Fun.(*ast.SelectorExpr); ok {
 		if s := info.Selections[sel]; s != nil && s.Kind() == types.MethodVal {
-			// a method called on an addressable struct value through a pointer receiver takes its address
-			skip := false
-			if l, ok := c.resolve(sel.X); ok && !l.rootPtr {
-				if l.none {
-					skip = true
-				} else if f, ok := s.Obj().(*types.Func); ok {
+			// a method called through a pointer receiver on an addressable value takes its address
+			op := c.classify(sel.X)
+			switch {
+			case op.pure && op.sync:
+			case op.pure:
+				byAddr := false
+				if f, ok := s.Obj().(*types.Func); ok {
 					if sig, ok := f.Type().(*types.Signature); ok && sig.Recv() != nil {
 						_, ptrRecv := sig.Recv().Type().(*types.Pointer)
-						_, isPtr := l.typ.(*types.Pointer)
-						_, isIface := l.typ.Underlying().(*types.Interface)
-						if ptrRecv && !isPtr && !isIface {
-							skip = true
-						}
+						_, isPtr := op.typ.Underlying().(*types.Pointer)
+						_, isIface := op.typ.Underlying().(*types.Interface)
+						byAddr = ptrRecv && !isPtr && !isIface
 					}
 				}
-			}
-			if !skip {
-				c.read(sel.X)
+				if byAddr {
+					c.derefs(sel.X)
+				} else {
+					c.load(sel.X)
+				}
+			default:
+				c.load(sel.X)
 			}
 		} else {
-			c.read(x.Fun)
+			c.load(x.Fun)
 		}
 	} else {
-		c.read(x.Fun)
+		c.load(x.Fun)
 	}
 	for _, a := range x.Args {
-		c.read(a)
+		c.load(a)
 	}
 }
 
-func (c *accCollector) write(e ast.Expr, alsoRead bool) {
-	switch x := e.(type) {
-	case *ast.ParenExpr:
-		c.write(x.X, alsoRead)
-	case *ast.Ident, *ast.SelectorExpr:
-		if l, ok := c.resolve(x); ok {
-			if l.rootPtr {
-				return // the local pointer variable itself
-			}
-			c.add(l, "", true)
-			return
+func (c *accCollector) store(e ast.Expr, alsoRead bool) {
+	for {
+		p, ok := e.(*ast.ParenExpr)
+		if !ok {
+			break
 		}
-		if sel, ok := x.(*ast.SelectorExpr); ok && c.y.w.pkg.TypesInfo.Selections[sel] != nil {
-			c.read(sel.X)
-		}
-	case *ast.IndexExpr:
-		if l, ok := c.resolve(x.X); ok && !l.rootPtr {
-			if isMapType(l.typ) {
-				c.add(l, "[]", true)
-			} else {
-				c.add(l, "", false) // element writes of slices and arrays are not tracked (disjoint indices are legal)
-			}
-		} else {
-			c.read(x.X)
-		}
-		c.read(x.Index)
-	case *ast.StarExpr:
-		if l, ok := c.resolve(x.X); ok && l.rootPtr {
-			c.add(rtLoc{root: l.root, loc: l.loc}, "", true)
-			return
-		}
-		c.read(x.X)
+		e = p.X
 	}
+	if id, ok := e.(*ast.Ident); ok && id.Name == "_" {
+		return
+	}
+	op := c.classify(e)
+	if !op.pure {
+		switch y := e.(type) {
+		case *ast.SelectorExpr:
+			if c.info().Selections[y] != nil {
+				c.load(y.X)
+			}
+		case *ast.StarExpr:
+			c.load(y.X)
+		case *ast.IndexExpr:
+			c.load(y.X)
+			c.load(y.Index)
+		}
+		return
+	}
+	if op.sync {
+		return
+	}
+	c.access(e, true)
+	if alsoRead {
+		c.access(e, false)
+	}
+	c.derefs(e)
 }
